@@ -690,12 +690,13 @@ def dead_param_branches(kinds, f):
     return dead, notes
 
 
-def run_name_rules(repo, rep, rr_cmp, rr_uncalled, scope):
+def run_name_rules(repo, rep, rr_cmp, rr_uncalled, scope, modules=None,
+                   api_classes=('MainProvider', 'ProviderDispatcher',
+                                'InstanceWriteProvider')):
     """Apply the comparison rule and the uncalled-method rule to every
     function selected by scope(func) -> bool."""
     from .model import norm
-    kinds = Kinds(repo, MOCK_MODULES, api_classes=(
-        'MainProvider', 'ProviderDispatcher', 'InstanceWriteProvider'))
+    kinds = Kinds(repo, modules or MOCK_MODULES, api_classes=api_classes)
     for f in kinds.funcs:
         if not scope(f):
             continue
